@@ -6,6 +6,29 @@ import TmVerif.Model.Templates
 namespace TmVerif.Templates
 open TmVerif.CFG
 
+/-! ### inversion of the derivation relations -/
+
+theorem Der.inv {imp : Implicit} {g : TGrammar} {N : Nat} {env : Env} {w : List Nat} (h : Der imp g N env w) :
+    ∃ nt a, g.nts[N]? = some nt ∧ a ∈ nt.alts ∧ a.enabled env = true ∧ DerSeq imp g N env true a.rhs w := by
+  cases h with
+  | alt _ _ nt a _ hnt ha hen hs => exact ⟨nt, a, hnt, ha, hen, hs⟩
+
+theorem DerSeq.nil_inv {imp : Implicit} {g : TGrammar} {N : Nat} {env : Env} {first : Bool} {w : List Nat}
+    (h : DerSeq imp g N env first [] w) : w = [] := by
+  cases h; rfl
+
+theorem DerSeq.t_inv {imp : Implicit} {g : TGrammar} {N : Nat} {env : Env} {first : Bool} {a : Nat}
+    {rest : List Sym} {w : List Nat} (h : DerSeq imp g N env first (.t a :: rest) w) :
+    ∃ v, w = a :: v ∧ a < g.nTerms ∧ DerSeq imp g N env false rest v := by
+  cases h with
+  | t _ _ _ _ _ v ha hr => exact ⟨v, rfl, ha, hr⟩
+
+theorem DerSeq.n_inv {imp : Implicit} {g : TGrammar} {N : Nat} {env : Env} {first : Bool} {m : Nat}
+    {args : List Arg} {rest : List Sym} {w : List Nat} (h : DerSeq imp g N env first (.n m args :: rest) w) :
+    ∃ u v, w = u ++ v ∧ Der imp g m (callEnv imp N first m env args) u ∧ DerSeq imp g N env false rest v := by
+  cases h with
+  | n _ _ _ _ _ _ u v hd hr => exact ⟨u, v, rfl, hd, hr⟩
+
 /-! ### check = eval -/
 
 theorem lookupB_envOf {ctx : Bound} {p : Nat} {v : Val} (h : lookupB ctx p = some v) : envOf ctx p = v := by
